@@ -67,7 +67,11 @@ impl CopyHandle {
         // opened can be checked first: the path may have become an
         // alias of the source since the check above (e.g. through a
         // symlink another worker has just created).
-        let outfd = File::options().write(true).create(true).truncate(false).open(to)?;
+        // With no-clobber the walker has seen nothing at this path; if
+        // something (e.g. a symlink created by another worker for an
+        // equally named source) has appeared since, fail rather than
+        // follow it: O_EXCL never opens an existing entry.
+        let outfd = File::options().write(true).create(true).create_new(config.no_clobber).truncate(false).open(to)?;
         let out_meta = outfd.metadata()?;
         if out_meta.dev() == metadata.dev() && out_meta.ino() == metadata.ino() {
             return Err(XcpError::DestinationExists("Source and destination are the same file.", to.to_path_buf()).into());
